@@ -143,6 +143,38 @@ var c01Forgeries = []forgery{
 		gen.BindHash(q)
 		gen.SignQe(q, w.Leaf.Key)
 	}},
+	// a QE report properly signed by the PCK key whose report data is the hash of only PART of (attestation key ||
+	// authentication data): a prefix as long as the 16-bit wrap of the total length, the key alone, the data alone, all
+	// but the last byte, nothing. Authentication data of 65472..65535 bytes make the total length pass 65535.
+	{"report-data-is-the-hash-of-part-of-the-input-qe-signed-pck", "reject", func(w *gen.World, q *gen.RefQuote, s *gen.Stream) {
+		k := foreignKey(s)
+		copy(q.AttKey[:], k.PubRaw())
+		q.Auth = s.Bytes([]int{65472, 65473, 65500, 65535, 65535, 300, 32, 0}[s.Intn(8)])
+		gen.SignBody(q, k)
+		full := append(append([]byte{}, q.AttKey[:]...), q.Auth...)
+		var part []byte
+		switch s.Intn(5) {
+		case 0:
+			part = full[:len(full)%65536%len(full)] // what a 16-bit length makes of it
+		case 1:
+			part = full[:64]
+		case 2:
+			part = full[64:]
+		case 3:
+			part = full[:len(full)-1]
+		default:
+			part = nil
+		}
+		if len(part) == len(full) {
+			part = full[:len(full)-1]
+		}
+		d := sha256.Sum256(part)
+		var rd [64]byte
+		copy(rd[:], d[:])
+		q.QeReportData = rd
+		q.FixSizes()
+		gen.SignQe(q, w.Leaf.Key)
+	}},
 	{"body-field-changed-not-resigned", "reject", func(w *gen.World, q *gen.RefQuote, s *gen.Stream) {
 		switch s.Intn(5) {
 		case 0:
